@@ -1457,14 +1457,15 @@ func ruleIndentClamp(c *Ctx) []Obligation {
 				}
 			}
 			// a loop over parts[1:]
-			for _, in2 := range h.Instrs {
-				if phi, isPhi := in2.(*ssa.Phi); isPhi {
-					for _, r := range *phi.Referrers() {
-						if ia, isIA := r.(*ssa.IndexAddr); isIA {
-							if sl, isSl := ia.X.(*ssa.Slice); isSl && sl.Low != nil {
-								if lo, okLo := constInt(sl.Low); okLo && lo >= 1 {
-									okCharge, why2 = true, "the loop starts at the second part"
-								}
+			for _, b2 := range acct.Blocks {
+				if !h.Dominates(b2) {
+					continue
+				}
+				for _, in2 := range b2.Instrs {
+					if ia, isIA := in2.(*ssa.IndexAddr); isIA {
+						if sl, isSl := ia.X.(*ssa.Slice); isSl && sl.Low != nil {
+							if lo, okLo := constInt(sl.Low); okLo && lo >= 1 {
+								okCharge, why2 = true, "the loop starts at the second part"
 							}
 						}
 					}
